@@ -45,7 +45,8 @@ CONFIG = {
     'must_sig': ['R1:CTL=LTL', 'R1:CTL=CTLS', 'R1:LTL=CTLS', 'R1:PL',
                  'R1:cast', 'R5:EU', 'R5:AU', 'R5:ER', 'R5:AR', 'R5:EG',
                  'R5:AG', 'R5:EF', 'R5:AF', 'R4:ctls', 'R2:synonyms_spacing', 'R2:nary_text',
-                 'family:A_and_E_same_path', 'family:ltl_depth2_routes'],
+                 'family:A_and_E_same_path', 'family:ltl_depth2_routes',
+                 'R1:object_reuse', 'R2:nary4'],
     'rule': ('cases = relation instances (relation, structure, formula or '
              'pair of formulas); structures: class representatives with <=2 '
              'states (quick: plus a sample of 3-state ones; thorough: all) '
@@ -143,6 +144,21 @@ def r1_ctl_ctls(nk, K, t, i):
               call('CTLS', K, mcwork.text_of('CTLS', t))]
         relate('R2', 'ctl_text', nk, K, [t], rs,
                lambda r, S: r[0] == r[1] == r[2], 'text = object')
+    if i % 4 == 3:
+        # ONE formula object handed to several checkers in turn
+        fo = obj('CTL', t)
+        rs = [call('CTL', K, fo), call('CTLS', K, fo), call('CTL', K, fo),
+              call('CTLS', K, fo.cast_to(lang('CTLS'))), call('CTL', K, fo)]
+        relate('R1', 'object_reuse', nk, K, [t], rs,
+               lambda r, S: all(x == r[0] for x in r),
+               'one object through CTL, CTL*, CTL again')
+        g4 = ('or', t, ('ap', 'q'), ('not', t), ('ap', 'p'))
+        rs = [call('CTL', K, obj('CTL', g4)),
+              call('CTL', K, mcwork.text_of('CTL', g4)),
+              call('CTLS', K, obj('CTLS', g4, raw=True))]
+        relate('R2', 'nary4', nk, K, [g4], rs,
+               lambda r, S: r[0] == r[1] == r[2] == S,
+               '4-ary tautology: text = object = all states')
     if i % 4 == 2:
         rr = gen.rng(0, PROP, ('fancy', i))
         rs = [a, call('CTL', K, mcwork.fancy_text('CTL', t, rr)),
@@ -380,7 +396,8 @@ def run(ctx):
         nrand = 3000
         per = 30
     for k in range(nrand):
-        structs.append(gen.random_structure(r, 5, atoms=('p', 'q')))
+        structs.append(gen.random_structure(r, 5 if k % 3 else 7,
+                                            atoms=('p', 'q')))
     i = 0
     for si, nk in enumerate(structs):
         rr = gen.rng(ctx.seed, PROP, si)
@@ -391,7 +408,8 @@ def run(ctx):
             r1_ctl_ltl_ctls(nk, K, t, i)
             i += 1
         for t in rr.sample(F1, per) + [gen.random_ctl(rr, 3, ('p', 'q'))
-                                      for _ in range(4)]:
+                                      for _ in range(4)] + \
+                [gen.random_ctl(rr, 4, ('p', 'q')) for _ in range(2)]:
             r1_ctl_ctls(nk, K, t, i)
             i += 1
         for g in rr.sample(P1, per) + [gen.random_ltl_path(
